@@ -25,6 +25,22 @@ Traverse(T, q) == Trav(T, <<>>, q, 40, {}, FALSE)
 
 Covers(L, x) == \E k \in DOMAIN L : L[k] = x \/ IsPrefix(L[k], x)
 
+\* explanation test for the second recorded finding: the resolver joins and cleans link targets LEXICALLY, so a ".." that
+\* follows a component which is itself a symlink leaves that link's OWN directory instead of the directory it points to.
+\* x is a symlink of T whose target has such a pair (name, "..") where the name, taken from the link's directory, is a symlink
+RECURSIVE LexClean(_, _)
+LexClean(acc, cs) == IF cs = <<>> THEN acc
+                     ELSE IF Head(cs) = DotDotN THEN LexClean(IF acc = <<>> THEN <<>> ELSE Parent(acc), Tail(cs))
+                     ELSE LexClean(Append(acc, Head(cs)), Tail(cs))
+LexDotDot(T, x) ==
+  LET tg == T[x].lnb
+      base == IF Len(tg) > 0 /\ tg[1] = Slash THEN <<>> ELSE Parent(x)
+      cs == SelectSeq(Split(tg), LAMBDA c : c # <<>> /\ c # DotN)
+  IN \E i \in 1..(Len(cs) - 1) :
+        /\ cs[i] # DotDotN /\ cs[i + 1] = DotDotN
+        /\ LET pre == LexClean(base, SubSeq(cs, 1, i)) IN pre \in DOMAIN T /\ T[pre].t = "symlink"
+LexReq(T, q) == \E x \in Traverse(T, q).links : LexDotDot(T, x)
+
 \* reqs: literal requests as paths (components may be "." / ".."), L: returned list as paths,
 \* isNil: the call returned nil (no filter), byteSorted: the harness's check of byte order on the joined strings
 FollowClauses(T, reqs, L, isNil, byteSorted) ==
@@ -34,20 +50,25 @@ FollowClauses(T, reqs, L, isNil, byteSorted) ==
       \* that meets a link already traversed (by an earlier request, or earlier in its own resolution,
       \* with another remainder) stops there
       memo(k) == trs[k].dup \/ \E j \in 1..(k - 1) : trs[j].links \cap trs[k].links # {}
+      \* (an EARLIER request that went astray lexically may have memoised links this request meets: memoisation by the
+      \* links the resolver traversed, not by the ones the true resolution traverses)
+      lexdd(k) == \E j \in 1..k : \E x \in trs[j].links : LexDotDot(T, x)
+      \* a clause over the set of requests that break it: explained by the first finding if every one of them meets the
+      \* memoisation test, by the second if every one meets one of the two tests
+      Expl(bad, name) == IF bad = {} THEN {}
+                         ELSE IF \A k \in bad : memo(k) THEN {name \o "/explainedByLinkMemoisation"}
+                         ELSE IF \A k \in bad : memo(k) \/ lexdd(k) THEN {name \o "/explainedByLexicalDotDot"}
+                         ELSE {name}
       walkSorted == \A k \in 1..(Len(L) - 1) : LessComponentwise(L[k], L[k + 1])
   IN (IF rootReached THEN (IF isNil THEN {}
-                           ELSE IF \A k \in DOMAIN reqs : (trs[k].ok /\ trs[k].p = <<>>) => memo(k)
-                                THEN {"rootReachedButListNotEmpty/explainedByLinkMemoisation"}
-                           ELSE {"rootReachedButListNotEmpty"})
-      ELSE (IF isNil /\ Len(reqs) > 0 THEN {"emptyListAlthoughRootNotReached"} ELSE {})
-           \cup (LET bad == {k \in DOMAIN reqs : \E x \in trs[k].links : ~Covers(L, x)}
-                 IN IF bad = {} THEN {}
-                    ELSE IF \A k \in bad : memo(k) THEN {"traversedSymlinkNotCovered/explainedByLinkMemoisation"}
-                    ELSE {"traversedSymlinkNotCovered"})
-           \cup (LET bad == {k \in DOMAIN reqs : trs[k].ok /\ ~Covers(L, trs[k].p)}
-                 IN IF bad = {} THEN {}
-                    ELSE IF \A k \in bad : memo(k) THEN {"finalLocationNotCovered/explainedByLinkMemoisation"}
-                    ELSE {"finalLocationNotCovered"}))
+                           ELSE Expl({k \in DOMAIN reqs : trs[k].ok /\ trs[k].p = <<>>}, "rootReachedButListNotEmpty"))
+      ELSE (IF isNil /\ Len(reqs) > 0
+            THEN (IF \E k \in DOMAIN reqs : lexdd(k) THEN {"emptyListAlthoughRootNotReached/explainedByLexicalDotDot"}
+                  ELSE {"emptyListAlthoughRootNotReached"})
+            ELSE {})
+           \* (a nil result means "no filter": everything is covered, the only complaint is the one above)
+           \cup (IF isNil THEN {} ELSE Expl({k \in DOMAIN reqs : \E x \in trs[k].links : ~Covers(L, x)}, "traversedSymlinkNotCovered"))
+           \cup (IF isNil THEN {} ELSE Expl({k \in DOMAIN reqs : trs[k].ok /\ ~Covers(L, trs[k].p)}, "finalLocationNotCovered")))
      \cup (IF byteSorted \/ walkSorted THEN {} ELSE {"notSorted"})
      \cup (IF \A a, b \in DOMAIN L : a # b => ~IsPrefix(L[a], L[b]) THEN {} ELSE {"elementInsideAnother"})
 
